@@ -38,6 +38,9 @@ def prepare(workdir):
     return pC12.prepare(workdir)
 
 
+CORRESPONDENCE_ONLY_OPS = ('J.stext', 'B.ftext', 'B.fadm', 'B.fparse', 'B.parse', 'B.settings')
+
+
 def impl_exec(ops):
     """J.* (stateful, settings and log documents) and B.* ops"""
     if ops and all(o.startswith('J.') for o in ops):
